@@ -24,14 +24,23 @@ Definition sanitize_attr (v : pyv) : pyv :=
 Section Codec.
   Variable literal_eval : string -> result pyv.
 
-  (* `if _should_desanitize(attr): attrs[key] = literal_eval(attr)`;
+  (* the action applied to a string the guard accepts: `literal_eval(attr)`, wrapped in
+     `try: ... except (<desanitize_caught>): return attr` when the source has the wrapper
+     (desanitize_caught is the generated list of caught kinds; empty for a bare literal_eval) *)
+  Definition literal_action (s : string) : result pyv :=
+    match literal_eval s with
+    | Ok v => Ok v
+    | Err k => if existsb (Nat.eqb k) desanitize_caught then Ok (PStr s) else Err k
+    end.
+
+  (* `if _should_desanitize(attr): attrs[key] = <action>(attr)`;
      literal_eval of something that is not a string is a ValueError (unreachable: the guard is
      false on non-strings) *)
   Definition desanitize_attr (v : pyv) : result pyv :=
     match should_desanitize v with
     | Err e => Err e
     | Ok false => Ok v
-    | Ok true => match v with PStr s => literal_eval s | _ => Err EValueError end
+    | Ok true => match v with PStr s => literal_action s | _ => Err EValueError end
     end.
 
   (* one attribute dictionary; the loop runs in dictionary order and stops at the first exception *)
